@@ -8,6 +8,10 @@ IDS="$@"; [ -z "$IDS" ] && IDS=$(ls seeded)
 rc=0
 for id in $IDS; do
   prop=${id%%-*}
+  case $id in benign-*) continue;; esac
+  rc_prop=$(python3 -c "import json;print(json.load(open('/verif/seeded/$id/meta.json')).get('check_result',{}).get('run_check',''))" 2>/dev/null)
+  [ -n "$rc_prop" ] && prop=$rc_prop
+  expected=$(python3 -c "import json;print(json.load(open('/verif/seeded/$id/meta.json')).get('check_result',{}).get('expected','caught'))" 2>/dev/null)
   wt=/tmp/seedreg-$id
   git -C /repo worktree remove --force $wt >/dev/null 2>&1; rm -rf $wt
   git -C /repo worktree add --detach -q $wt HEAD || { echo "$id worktree failed"; rc=2; continue; }
@@ -20,7 +24,7 @@ for id in $IDS; do
   cls=$(echo "$out" | grep -o 'class=[^ ]*' | sort -u | head -3 | tr '\n' ' ')
   case $st in
     1) echo "$id CAUGHT $cls";;
-    0) echo "$id MISSED"; rc=1;;
+    0) if [ "$expected" = shadowed ]; then echo "$id SHADOWED by an open known finding (expected)"; else echo "$id MISSED"; rc=1; fi;;
     *) echo "$id TROUBLE(exit $st) $(echo "$out" | grep -E 'runner:|build:' | head -1)"; rc=2;;
   esac
   git -C /repo worktree remove --force $wt >/dev/null 2>&1
